@@ -1,5 +1,6 @@
 import BqVerif.Proofs.Worker
 import BqVerif.Proofs.Cleanup
+import BqVerif.Proofs.WorkersInv
 import BqVerif.Model.RuntimeWitness
 /-!
 # C12 — cancelling removes the work everywhere and disturbs nothing else
@@ -108,6 +109,31 @@ theorem C12_cleanup_at_quiescence_partial (tbl : Table) (w : Worker) (ops : List
   · intro t ht
     rw [h0] at ht
     cases ht
+
+/-- **Clean-up at quiescence on the flat network** (all schedules).  In every quiescent state
+    reachable by the flat network, every live worker holds no delayed task, and every task left in
+    its table has no cancelled ancestor - or is a task delivered after the CANCEL of its own
+    address (excluded in the real system only by the path-ordering argument, see the design
+    note).  Lifts `C12_cleanup_at_quiescence_partial` through `workers_inv_exec`: the clean-up
+    invariant `CInv` needs no assumption on the messages, so it holds for every worker of every
+    reachable state. -/
+theorem C12_G_cleanup_at_quiescence_partial (tbl : Table) (attached : Bool) (nw nc : Nat) (trs : List Tr)
+    (hwf : ∀ t ∈ trs, t.wf) (hq : ((Net.initFlat tbl attached nw nc).exec trs).quiescent = true)
+    (w : Worker) (hw : w ∈ ((Net.initFlat tbl attached nw nc).exec trs).workers)
+    (hal : w.alive = true) (hmd : w.mainDead = false) :
+    w.delayed = [] ∧ ∀ t ∈ w.tasks, t.addr ∈ w.cancelled ∨ ∀ c ∈ t.crumbs, c ∉ w.cancelled := by
+  have hc := cinv_exec tbl attached nw nc trs hwf w hw
+  simp only [Net.quiescent, Bool.and_eq_true, List.all_eq_true] at hq
+  have hidle := hq.2 w hw
+  simp only [hal, hmd, Bool.not_true, Bool.false_or, Bool.and_eq_true, List.isEmpty_iff] at hidle
+  refine ⟨hc.idle hidle.1 hidle.2, ?_⟩
+  intro t ht
+  by_cases ha : t.addr ∈ w.cancelled
+  · exact Or.inl ha
+  · right
+    intro c hc1 hc2
+    have := hc.pending t ht ha ⟨c, hc1, hc2⟩
+    rw [hidle.2] at this; cases this
 
 /-- **Completion-time clean-up** (holds since 6ca9fa1): when a task returns and
     `_process_task_completion` does not raise, every mailbox the task still owned - those it
